@@ -16,6 +16,7 @@ import pexpect
 from pexpect import pxssh
 import pexpect.expect
 from .. import tlc, tracecheck, evidence, common
+from .. import fakessh
 from ..fakessh import FakeServer, FakePxssh, UNIQUE, install_shim, uninstall_shim
 from ..vclock import VClock
 
@@ -28,15 +29,33 @@ def run_login(tid, stages, final, sync, reset, extra=None, h=None):
         h = tid if isinstance(tid, int) else 0
     clock = VClock().install(pexpect.expect, pxssh)
     install_shim()
-    srv = FakeServer(list(stages), final.replace('shell_', 'shell:'))
-    p = FakePxssh(srv, clock)
-    t0 = clock.now
     opts = {'sync_original_prompt': sync, 'auto_prompt_reset': reset}
     if extra:
         opts.update(extra)
+    hop, custom = opts.pop('_hop', False), opts.pop('_custom', False)
+    nlog0 = 0
+    if hop:
+        # two-hop login on one object: the outer host first, then `ssh inner` typed at its shell
+        srv = FakeServer([], 'shell:sh')
+        p = FakePxssh(srv, clock)
+        if p.login('h', 'user', 'secret', sync_original_prompt=False) is not True:
+            raise RuntimeError('fake ssh: the plain first login failed')
+        srv.hop = (list(stages), final.replace('shell_', 'shell:'), 'pw-inner')
+        nlog0 = len(srv.log)
+        who = ('inner', 'me', 'pw-inner')
+        opts['spawn_local_ssh'] = False
+        if custom:
+            opts.update(original_prompt=fakessh.INNER_ORIGINAL_PROMPT, password_regex=fakessh.INNER_PASSWORD_REGEX)
+    else:
+        srv = FakeServer(list(stages), final.replace('shell_', 'shell:'))
+        p = FakePxssh(srv, clock)
+        who = ('h', 'user', 'secret')
+        if custom:
+            opts.update(original_prompt=fakessh.OUTER_ORIGINAL_PROMPT, password_regex=fakessh.OUTER_PASSWORD_REGEX)
+    t0 = clock.now
     ret, exc_ok = None, False
     try:
-        r = p.login('h', 'user', 'secret', **opts)
+        r = p.login(*who, **opts)
         ret = 'True' if r is True else repr(r)
     except pexpect.ExceptionPexpect as e:
         ret = 'raise_' + ('Pxssh' if isinstance(e, pxssh.ExceptionPxssh) else type(e).__name__)
@@ -77,7 +96,9 @@ def run_login(tid, stages, final, sync, reset, extra=None, h=None):
     clock.uninstall()
     uninstall_shim()
     ev = []
-    for x in srv.log[:nlog]:
+    for x in srv.log[nlog0:nlog]:
+        if x[0] == 'hop' or (hop and x[0] == 'cli' and x[2].startswith('ssh ')):
+            continue
         if x[0] == 'srv':
             ev.append({'e': 'srv', 'tok': x[1]})
         else:
@@ -138,7 +159,28 @@ def run(ctx):
     extras = [{'quiet': False}, {'port': 2222}, {'ssh_key': True}, {'terminal_type': 'vt100'}, {'login_timeout': 3}, {'check_local_ip': False}]
     for j, c in enumerate(rng.sample(configs, 300 if ctx.quick() else 1500)):
         traces.append(run_login(len(traces), *c, extra=extras[j % len(extras)]))
-    ctx.note('%d real login() dialogues against the scripted server in %.1fs' % (len(traces), time.time() - t0))
+    # caller-supplied password_regex / original_prompt (what the options exist for: a message of the day that mentions
+    # "password:", prompts of a known form), on a first login and on a second login through a jump host on the same object
+    # (login(spawn_local_ssh=False)); the server may be slow ('wait': what follows arrives in a later read)
+    stages2 = ['notice', 'wait', 'hostkey', 'password', 'termtype', 'banner']
+    cfg2 = []
+    for k in range(0, 4):
+        for st in itertools.product(stages2, repeat=k):
+            for final in FINALS:
+                cfg2.append((st, final))
+    nhop = 0
+    for st, final in (rng.sample(cfg2, 700) if ctx.quick() else cfg2):
+        for hop in (False, True):
+            sync, reset = rng.random() < 0.5, rng.random() < 0.7
+            traces.append(run_login(len(traces), st, final, sync, reset, extra={'_hop': hop, '_custom': True}))
+            nhop += 1
+    # a jump host with the default patterns (no message of the day: the default password_regex is documented to need help there)
+    for st, final in rng.sample([c for c in cfg2 if 'notice' not in c[0]], 200 if ctx.quick() else 1000):
+        sync, reset = rng.random() < 0.5, rng.random() < 0.7
+        traces.append(run_login(len(traces), st, final, sync, reset, extra={'_hop': True}))
+        nhop += 1
+    ctx.note('%d real login() dialogues against the scripted server in %.1fs (%d with caller-supplied patterns and/or through a jump host)' % (
+        len(traces), time.time() - t0, nhop))
     verdicts, st = tracecheck.validate([{'id': t['id'], 'ev': t['ev'], 'opts': t['opts'], 'result': t['result'], 'cmds': t['cmds']}
                                         for t in traces], 'PxsshTrace', ctx.work, procs=8, pass_through=True)
     cnt = Counter(v[0] for v in verdicts.values())
